@@ -192,7 +192,7 @@ func MuxScenarios(thorough bool) []MuxScenario {
 		MuxScenario{Name: "packet-size-edges-p2", Period: 2, Setup: setupA, Alpha: muxPktEdgeAlpha, Depth: 3, Dedup: true},
 		// caller packets with every value of the header's small fields (scrambling control, transport_error, priority)
 		MuxScenario{Name: "packet-header-values-p2", Period: 2, Setup: setupA,
-			Alpha: []MOp{{K: "pkt", Pkt: "scr1"}, {K: "pkt", Pkt: "scr2"}, {K: "pkt", Pkt: "scr3"}, {K: "pkt", Pkt: "teiprio"}, opDataA1, opTables}, Depth: 3, Dedup: true},
+			Alpha: []MOp{{K: "pkt", Pkt: "scr1"}, {K: "pkt", Pkt: "scr2"}, {K: "pkt", Pkt: "scr3"}, {K: "pkt", Pkt: "teiprio"}, {K: "pkt", Pkt: "onebyte"}, {K: "pkt", Pkt: "onebytepcr"}, opDataA1, opTables}, Depth: 3, Dedup: true},
 		// every part of the adaptation field extension on its own (piecewise rate without a legal time window, ...)
 		MuxScenario{Name: "af-extension-parts-p2", Period: 2, Setup: setupA,
 			Alpha: []MOp{{K: "data", PID: 0x100, Len: 250, AF: "extpw"}, {K: "data", PID: 0x100, Len: 10, AF: "extss"}, opDataAltw, {K: "data", PID: 0x100, Len: 400, AF: "ext"}, opDataA1}, Depth: 3, Dedup: true},
